@@ -110,7 +110,7 @@ def run_job(job):
         )
         eng.cut_on_undecided = bool(job.get("cut_on_undecided", False))
         if job.get("optional"):
-            eng.max_wall_s = float(os.environ.get("VERIF_JOB_WALL", job.get("max_wall_s", 600)))  # only best-effort jobs may stop early (reported as incomplete)
+            eng.max_wall_s = float(os.environ.get("VERIF_JOB_WALL", job.get("max_wall_s", 300)))  # only best-effort jobs may stop early (reported as incomplete)
         funcs = set()
         state = {"first": True}
 
